@@ -71,6 +71,15 @@ def same_value(a, b):
     return canon(a) == canon(b)
 
 
+def _field(d, fieldName):
+    """stored value of a parameter; a parameter without default that nobody assigned (the field holds the NoDefault
+    class, or is absent after `del p[name]`) is UNSET either way"""
+    v = d.get(fieldName, UNSET)
+    if isinstance(v, type) and v.__name__ == "NoDefault":
+        return UNSET
+    return v
+
+
 class _Frozen:
     """canonical contents of a mutable parameter value"""
     __slots__ = ("c",)
@@ -118,7 +127,7 @@ class ParamBinding:
         setattr(obj.p, self.name, self.concrete(w, oid, v))
 
     def raw(self, obj):
-        return obj.p.__dict__.get("_p_" + self.name, UNSET)
+        return _field(obj.p.__dict__, "_p_" + self.name)
 
     def probe(self, obj):
         self.rev = {}
@@ -204,6 +213,58 @@ class NdensBinding(ParamBinding):
         return "?%s=%r" % (nuc, d[nuc])
 
 
+class UnsetBinding(ParamBinding):
+    """a parameter WITHOUT default; value 0 = nobody has assigned it (the specification never assigns 0: Unset0)"""
+
+    def __init__(self, name, values):
+        ParamBinding.__init__(self, name, [UNSET] + list(values), "no-default,unset")
+
+    def assign(self, w, oid, obj, v):
+        if v == 0:
+            if self.raw(obj) is not UNSET:
+                raise tlc.MachineryError("%s is expected to be unset on a new object" % self.name)
+            return
+        setattr(obj.p, self.name, self.values[v])
+
+    def probe(self, obj):
+        self.rev = {canon(UNSET): 0}
+        for v in range(1, len(self.values)):
+            self.rev[canon(self.values[v])] = v
+
+
+class DimBinding(ParamBinding):
+    """component.p.od = x on components some of which carry the dimension as a LINK to a sibling (bond od = "clad.id");
+    value 0 = what the component was built with (a number, or the link to its own sibling)"""
+
+    def __init__(self):
+        ParamBinding.__init__(self, "od", [None, 0.99, 0.98], "dimension(link or number)")
+
+    def assign(self, w, oid, obj, v):
+        if v == 0:
+            return  # (built value; the specification never assigns it: Unset0)
+        obj.p.od = w["od0"][w["orig"][oid]][1] * self.values[v]
+
+    def probe(self, obj):
+        self.rev = {}
+
+    def read(self, w, oid, obj):
+        x = self.raw(obj)
+        kind, num, tgt = w["od0"][w["orig"][oid]]
+        if type(x).__name__ == "_DimensionLink":
+            ident = {id(v): k for k, v in w["obj"].items()}
+            t = ident.get(id(x[0]))
+            if kind == "link" and t is not None and w["orig"].get(t) == tgt and w["obj"][t].parent is obj.parent:
+                return 0
+            return "?link to %r (object %s)" % (x[0], t)
+        if isinstance(x, float):
+            if kind == "num" and x == num:
+                return 0
+            for v in range(1, len(self.values)):
+                if x == num * self.values[v]:
+                    return v
+        return "?" + repr(x)[:80]
+
+
 def _profiles():
     import numpy as np
 
@@ -228,6 +289,30 @@ def _profiles():
             "cmp": {"p": NdensBinding(nd), "q": ParamBinding("pinNDens", [None, [[1.0, 2.0]], [[3.0, 4.0]]], "none-array(f32)")},
         },
         # arrays / lists whose shape changes between values, value 0 is already an array
+        # a parameter without default that is unset when the scope opens (Component.zrFrac)
+        "unset": {
+            "asm": {"p": ParamBinding("chargeTime", [0.0, 1.5, 2.5], "float"),
+                    "q": ParamBinding("detailedNDens", [None, A([1.0, 2.0]), A([3.0, 4.0])], "array")},
+            "blk": {"p": ParamBinding("power", [0.0, 1.0e6, 2.5e6], "float"),
+                    "q": ParamBinding("mgFlux", [None, A([1.0, 2.0]), A([3.0, 4.0])], "array")},
+            "cmp": {"p": NdensBinding(nd), "q": UnsetBinding("zrFrac", [0.1, 0.2])},
+        },
+        # the SAME parameter name defined on two / three classes (different Parameter objects)
+        "same-name": {
+            "asm": {"p": ParamBinding("kInf", [0.0, 1.1, 1.2], "float,same-name"),
+                    "q": ParamBinding("detailedNDens", [None, A([1.0, 2.0]), A([3.0, 4.0])], "array,same-name")},
+            "blk": {"p": ParamBinding("kInf", [0.0, 1.1, 1.2], "float,same-name"),
+                    "q": ParamBinding("detailedNDens", [None, A([1.0, 2.0]), A([3.0, 4.0])], "array,same-name")},
+            "cmp": {"p": NdensBinding(nd), "q": ParamBinding("detailedNDens", [None, A([1.0, 2.0]), A([3.0, 4.0])], "array,same-name")},
+        },
+        # linked dimensions (bond: id = "fuel.od", od = "clad.id")
+        "links": {
+            "asm": {"p": ParamBinding("chargeTime", [0.0, 1.5, 2.5], "float"),
+                    "q": ParamBinding("detailedNDens", [None, A([1.0, 2.0]), A([3.0, 4.0])], "array")},
+            "blk": {"p": ParamBinding("power", [0.0, 1.0e6, 2.5e6], "float"),
+                    "q": ParamBinding("mgFlux", [None, A([1.0, 2.0]), A([3.0, 4.0])], "array")},
+            "cmp": {"p": NdensBinding(nd), "q": DimBinding()},
+        },
         "reshape": {
             "asm": {"p": ParamBinding("chargeTime", [0.0, 1.5, 2.5], "float"),
                     "q": ParamBinding("detailedNDens", [A([1.0, 2.0]), A([1.0, 2.0, 3.0]), A([[1.0, 2.0], [3.0, 4.0]])], "array-reshape")},
@@ -315,18 +400,35 @@ class MiniAdapter:
                 return None
             return tuple(float("%.10g" % y) for y in self.np.asarray(x, dtype=float).ravel())
 
-        return (r(g._unitSteps), tuple(r(b) for b in g._bounds), r(g._offset))
+        return (r(g._unitSteps), tuple(r(b) for b in g._bounds), r(g._offset), read_grid(g))
 
     def build(self, root):
         parent, cls = root["parent"], root["cls"]
+        link = root.get("link") or [0] * len(cls)
         O = {}
         for i, c in enumerate(cls, start=1):
-            O[i] = self.make(c, i)
-        for i, pa in enumerate(parent, start=1):
+            if not link[i - 1]:
+                O[i] = self.make(c, i)
+        for i, c in enumerate(cls, start=1):
+            if link[i - 1]:
+                # a bond between its two siblings: inner diameter = the fuel's outer, outer = the clad's inner
+                fuel = O[link[i - 1]]
+                clad = next(O[j] for j in sorted(O) if j != link[i - 1] and parent[j - 1] == parent[i - 1] and cls[j - 1] == "cmp")
+                O[i] = self.components.Circle("bond", "Sodium", Tinput=450.0, Thot=450.0, id="fuel.od", od="clad.id", mult=1.0,
+                                              components={"fuel": fuel, "clad": clad})
+        for i, pa in sorted(enumerate(parent, start=1)):
             if pa:
                 O[pa].add(O[i])
         w = {"obj": O, "cls": {i: c for i, c in enumerate(cls, start=1)}, "orig": {i: i for i in O}, "stack": [],
-             "err": "", "nd0": {}, "t0": {}, "rest0": {}, "prof": self.name}
+             "err": "", "nd0": {}, "t0": {}, "rest0": {}, "od0": {}, "prof": self.name}
+        ident0 = {id(v): k for k, v in O.items()}
+        for i, o in O.items():
+            if w["cls"][i] == "cmp":
+                x = o.p.__dict__.get("_p_od")
+                if type(x).__name__ == "_DimensionLink":
+                    w["od0"][i] = ("link", float(o.getDimension("od", cold=True)), ident0[id(x[0])])
+                else:
+                    w["od0"][i] = ("num", x, 0)
         NEVER = self.parameters.NEVER
         seen = set()
         for i, o in O.items():
@@ -366,7 +468,7 @@ class MiniAdapter:
         d = o.p.__dict__
         # immutable values are kept as they are; arrays / lists / dicts as their CONTENTS (a mutator may change them
         # in place, so identity says nothing)
-        return names, [_frozen(d.get(n, UNSET)) for n in names]
+        return names, [_frozen(_field(d, n)) for n in names]
 
     # -- actions ---------------------------------------------------------------------------------------
     def keepset(self, w, keep):
@@ -398,6 +500,8 @@ class MiniAdapter:
                 (o if a["w"] == "obj" else o.material)._setCache(CACHE_KEY, a["tag"])
             elif n == "SetGrid":
                 self.set_grid(w["cls"][a["o"]], O[a["o"]], a["g"])
+            elif n == "ReadGrid":
+                read_grid(O[a["o"]].spatialGrid)
             elif n in ("DeepCopy", "Pickle"):
                 src = O[a["x"]]
                 new = copy.deepcopy(src) if n == "DeepCopy" else pickle.loads(pickle.dumps(src))
@@ -432,7 +536,7 @@ class MiniAdapter:
         O = w["obj"]
         live = sorted(O)
         ident = {id(v): k for k, v in O.items()}
-        val, rest, cass, cache, mcache, grid, ro, par, cls, ser = [], [], [], [], [], [], [], [], [], []
+        val, rest, cass, cache, mcache, grid, ro, par, cls, ser, lk = [], [], [], [], [], [], [], [], [], [], []
         for i in live:
             o = O[i]
             c = w["cls"][i]
@@ -441,7 +545,7 @@ class MiniAdapter:
             d = o.p.__dict__
             r = 0
             for nm, b in zip(names, base):
-                x = d.get(nm, UNSET)
+                x = _field(d, nm)
                 if type(b) is _Frozen:
                     if canon(x) != b.c:
                         r = "%s: built with %s, now %r" % (nm[3:], _short(b.c), _short(x))
@@ -462,6 +566,7 @@ class MiniAdapter:
             par.append(0 if o.parent is None else ident.get(id(o.parent), -1))
             cls.append(c)
             ser.append(o.p.serialNum)
+            lk.append(link_of(o, ident, ("id",)))
         same = [min(j for j, s in zip(live, ser) if s == ser[k]) for k in range(len(live))]
         dass = {}
         for i in live:
@@ -469,11 +574,42 @@ class MiniAdapter:
             if c not in dass:
                 dass[c] = {p: self.prof[c][p].pdef(O[i]).assigned for p in ("p", "q")}
         return {"val": val, "rest": rest, "cass": cass, "dass": dass, "cache": cache, "mcache": mcache, "grid": grid,
-                "ro": ro, "parent": par, "cls": cls, "sameSerialAs": same, "depth": len(w["stack"]), "err": w["err"]}
+                "ro": ro, "parent": par, "cls": cls, "link": lk, "sameSerialAs": same, "depth": len(w["stack"]),
+                "err": w["err"]}
 
     def label(self, w, oid, p):
         c = w["cls"].get(oid, "?")
         return self.prof[c][p].label(c) if c in self.prof else c
+
+
+def read_grid(g):
+    """what the public getters of a grid answer (pitch of hex / cartesian grids)"""
+    if hasattr(type(g), "pitch"):
+        try:
+            x = g.pitch
+        except Exception as ex:  # (grids without a pitch say so by raising)
+            return type(ex).__name__
+        return tuple(None if y is None else float("%.10g" % y) for y in (x if isinstance(x, (tuple, list)) else (x,)))
+    return None
+
+
+HIDDEN = 99  # RetainState!Hidden
+
+
+def link_of(o, ident, dims=None):
+    """the object (world id) a linked dimension of o resolves through: 0 = no link, HIDDEN = an object outside the
+    world; also checks that the resolved value really is the target's dimension"""
+    for d in dims or getattr(o, "DIMENSION_NAMES", ()):
+        x = o.p.__dict__.get("_p_" + d)
+        if type(x).__name__ == "_DimensionLink":
+            t = ident.get(id(x[0]), HIDDEN)
+            try:
+                if o.getDimension(d, cold=True) != x[0].getDimension(x[1], cold=True):
+                    return "?%s resolves to %r, %r has %r" % (d, o.getDimension(d, cold=True), x[0], x[0].getDimension(x[1], cold=True))
+            except Exception as ex:  # an unresolvable link is an observation, not a harness failure
+                return "?%s: %s" % (d, type(ex).__name__)
+            return t
+    return 0
 
 
 def _first_nuclide(o):
@@ -773,6 +909,7 @@ MC_QUICK = {
     "grid": ("RetainState_mcG.cfg", ("Enter", "Exit", "SetGrid", "SetCache")),
     "copy": ("RetainState_mcC.cfg", ("Assign", "AssignRO", "Copy", "MakeReadOnly")),
     "db": ("RetainState_mcD.cfg", ("WriteDb", "LoadDbV", "Copy", "Assign", "AssignRO")),
+    "links": ("RetainState_mcL.cfg", ("Enter", "Exit", "Assign", "Copy")),
 }
 MC_THOROUGH = {
     "all": ("RetainState_mc_thorough.cfg", tuple(a for a in MC_QUICK["all"][1] if a != "LoadDbV")),  # (pool of 1)
@@ -781,15 +918,21 @@ MC_THOROUGH = {
     "grid": ("RetainState_mcG_thorough.cfg", MC_QUICK["grid"][1]),
     "copy": ("RetainState_mcC_thorough.cfg", MC_QUICK["copy"][1]),
     "db": ("RetainState_mcD_thorough.cfg", MC_QUICK["db"][1]),
+    "links": ("RetainState_mcL.cfg", MC_QUICK["links"][1]),
 }
 # emission instances: label -> (cfg, every edge under every profile?)   (otherwise the edges are dealt out to the profiles)
+# an optional third entry names the profiles the graph is replayed under (default: PROFILES)
 EMIT_QUICK = {
+    "links": ("RetainState_emitL.cfg", True, ("links",)),
+    "unset+same-name": ("RetainState_emitU.cfg", True, ("unset", "same-name")),
     "read-only": ("RetainState_emitR.cfg", True),
     "copy": ("RetainState_emitC.cfg", False),
     "grid": ("RetainState_emitG.cfg", False),
     "params": ("RetainState_emitP.cfg", False),
 }
 EMIT_THOROUGH = {
+    "links": ("RetainState_emitL_thorough.cfg", True, ("links",)),
+    "unset+same-name": ("RetainState_emitU_thorough.cfg", True, ("unset", "same-name")),
     "read-only": ("RetainState_emitR.cfg", True),
     "read-only-copies": ("RetainState_emitR_thorough.cfg", False),
     "copy": ("RetainState_emitC_thorough.cfg", False),
@@ -800,6 +943,11 @@ EMIT_THOROUGH = {
 }
 EMIT = {k: (v[0],) for k, v in EMIT_QUICK.items()}  # (selftest uses the quick graphs)
 PROFILES = ("scalar-array", "str-none-dict", "reshape")
+ALL_PROFILES = PROFILES + ("unset", "same-name", "links")
+
+
+def profiles_of(entry):
+    return entry[2] if len(entry) > 2 else PROFILES
 
 
 class _Bg(threading.Thread):
@@ -869,7 +1017,7 @@ def run(rep, tier, seed):
         children[what] = (outp, subprocess.Popen(
             [sys.executable, "-m", "props.c16", "--child", what, tier, str(seed), outp], cwd=common.ROOT,
             stdout=subprocess.DEVNULL, stderr=subprocess.DEVNULL))
-    adapters = {p: MiniAdapter(p) for p in PROFILES}
+    adapters = {p: MiniAdapter(p) for p in ALL_PROFILES}
     timing["setup"] = round(time.time() - t0, 1)
     keys_seen = {}
     for focus in EM:
@@ -883,11 +1031,12 @@ def run(rep, tier, seed):
         res.prints, res.out = [], ""
         ne = len(g.edges)
         tot = {"walks": 0, "steps": 0, "covered": 0, "nontrivial": 0, "blocked": 0, "divergent": 0}
-        for pi, prof in enumerate(PROFILES):
+        profs = profiles_of(EM[focus])
+        for pi, prof in enumerate(profs):
             if EM[focus][1]:
                 targets = range(ne)
             else:
-                targets = [i for i in range(ne) if i % len(PROFILES) == pi]
+                targets = [i for i in range(ne) if i % len(profs) == pi]
             if thorough and focus == "params":
                 # the shallower edges of this graph are the graph of "params-all-kinds" (every edge under every kind)
                 deepest = max(e["lvl"] for e in g.edges)
@@ -962,13 +1111,15 @@ def run(rep, tier, seed):
 # ------------------------------------------------------------------------------------------------------------
 RBIND = {
     "r": {"s": "cycleLength", "a": "eFeedMT", "d": "eFissile", "n": "eSWU"},
-    "core": {"s": "keff", "a": "betaComponents", "d": "betaDecayConstants", "n": "crMostValuablePrimaryRodLocation"},
+    "core": {"s": "keff", "a": "betaComponents", "d": "betaDecayConstants", "n": "crMostValuablePrimaryRodLocation",
+             "u": "fisFrac"},
     "sfp": {},
     "asm": {"s": "chargeTime", "a": "detailedNDens", "d": "hotChannelFactors", "n": "orientation"},
-    "blk": {"s": "power", "a": "mgFlux", "d": "linPowByPin", "n": "adjMgFlux"},
-    "cmp": {"s": "temperatureInC", "a": "pinPercentBu", "d": "numberDensities", "n": "customIsotopicsName"},
+    # "a" is the SAME NAME on three families (three different Parameter objects); "u" has no default and is unset
+    "blk": {"s": "power", "a": "detailedNDens", "d": "linPowByPin", "n": "adjMgFlux"},
+    "cmp": {"s": "temperatureInC", "a": "detailedNDens", "d": "numberDensities", "n": "customIsotopicsName", "u": "zrFrac"},
 }
-RPAR = ("s", "a", "d", "n")
+RPAR = ("s", "a", "d", "n", "u")
 # read-only family on the reactor (CallRO) and side-effecting mutators on writeable objects (Havoc)
 RO_CALLS = {
     "r": ["changeNDensByFactor", "clearNumberDensities", "p.update", "p[]=", "del p[]", "copyParamsFrom"],
@@ -1120,23 +1271,24 @@ class ReactorRecorder:
                 return None
             return tuple(float("%.10g" % y) for y in self.np.asarray(x, dtype=float).ravel())
 
-        return (r(g._unitSteps), tuple(r(b) for b in g._bounds), r(g._offset))
+        return (r(g._unitSteps), tuple(r(b) for b in g._bounds), r(g._offset), read_grid(g))
 
     def project(self, w):
         O = w["obj"]
         live = sorted(O)
         ident = {id(v): k for k, v in O.items()}
-        val, rest, cass, cache, mcache, grid, ro, par, cls, ser = [], [], [], [], [], [], [], [], [], []
+        val, rest, cass, cache, mcache, grid, ro, par, cls, ser, lk = [], [], [], [], [], [], [], [], [], [], []
         for i in live:
             o = O[i]
             f = w["cls"][i]
             d = o.p.__dict__
             b = RBIND[f]
-            val.append({p: (self.vid(w, "vid", canon(d.get("_p_" + b[p], UNSET))) if p in b else 0) for p in RPAR})
+            val.append({p: (self.vid(w, "vid", canon(_field(d, "_p_" + b[p]))) if p in b else 0) for p in RPAR})
             skip = {"_p_" + nm for nm in b.values()}
             skip.add("_p_serialNum")
-            rest.append(self.vid(w, "rid", tuple(canon(d.get(pd.fieldName, UNSET)) for pd in o.p.paramDefs
+            rest.append(self.vid(w, "rid", tuple(canon(_field(d, pd.fieldName)) for pd in o.p.paramDefs
                                                  if pd.fieldName not in skip)))
+            lk.append(link_of(o, ident))
             cass.append(o.p.assigned)
             cache.append(o.cached.get(CACHE_KEY, 0))
             mcache.append(o.material.cached.get(CACHE_KEY, 0) if f == "cmp" else 0)
@@ -1147,11 +1299,13 @@ class ReactorRecorder:
             ser.append(o.p.serialNum)
         same = [min(j for j, s in zip(live, ser) if s == ser[k]) for k in range(len(live))]
         return {"val": val, "rest": rest, "cass": cass, "cache": cache, "mcache": mcache, "grid": grid, "ro": ro,
-                "parent": par, "cls": cls, "sameSerialAs": same, "depth": len(w["stack"]), "err": w["err"]}
+                "parent": par, "cls": cls, "link": lk, "sameSerialAs": same, "depth": len(w["stack"]), "err": w["err"]}
 
     # -- random concrete values ------------------------------------------------------------------------
     def value(self, rng, p, f):
         np = self.np
+        if p == "u":
+            return rng.choice([0.05, 0.1, 0.25])
         if p == "s":
             return rng.choice([450.0, 525.0, 600.0, 700.0]) if f == "cmp" else rng.choice([0.0, 1.5, -3.25, 1.0e6, 2.5])
         if p == "a":
@@ -1176,7 +1330,7 @@ class ReactorRecorder:
         live = sorted(O)
         kind = force["kind"] if force else rng.choice(
             ["Enter"] * 4 + ["Exit"] * 4 + ["Assign"] * 7 + ["Ndens"] * 3 + ["Temp"] * 2 + ["Mutate"] * 2 + ["SetCache"] * 3
-            + ["SetGrid"] * 3 + ["DeepCopy", "DeepCopy", "Pickle", "MakeReadOnly", "WriteDb", "LoadDb", "LoadDbRO"] + ["RO"] * 4)
+            + ["SetGrid"] * 3 + ["ReadGrid"] + ["DeepCopy", "DeepCopy", "Pickle", "MakeReadOnly", "WriteDb", "LoadDb", "LoadDbRO"] + ["RO"] * 4)
         writable = [i for i in live if not O[i].p.readOnly]
         frozen = [i for i in live if O[i].p.readOnly]
         a, x = None, {}
@@ -1221,7 +1375,7 @@ class ReactorRecorder:
                     return None
                 o = rng.choice(cands)
                 f = w["cls"][o]
-                p = rng.choice(RPAR)
+                p = rng.choice([q for q in RPAR if q in RBIND[f]])
                 a = {"n": "Assign", "o": o, "p": p, "v": None}
                 if f == "cmp" and p == "d":
                     # a valid composition (the mutators of later events must be able to work with it)
@@ -1229,7 +1383,7 @@ class ReactorRecorder:
                     newv = {k: v * rng.choice([0.5, 1.0, 2.0]) for k, v in cur.items()}
                 else:
                     newv = self.value(rng, p, f)
-                    if p != "s":
+                    if p not in ("s", "u"):
                         w["dirty"] = True  # arbitrary values of arbitrary kinds: not something a database can hold
                 setattr(O[o].p, RBIND[f][p], newv)
             elif kind == "Ndens":
@@ -1264,6 +1418,13 @@ class ReactorRecorder:
                 tag = rng.randrange(1, 9)
                 a = {"n": "SetCache", "o": o, "w": which, "tag": tag}
                 (O[o] if which == "obj" else O[o].material)._setCache(CACHE_KEY, tag)
+            elif kind == "ReadGrid":
+                cands = [i for i in live if O[i].spatialGrid is not None]
+                if not cands:
+                    return None
+                o = rng.choice(cands)
+                a = {"n": "ReadGrid", "o": o}
+                read_grid(O[o].spatialGrid)
             elif kind == "SetGrid":
                 cands = [i for i in writable if O[i].spatialGrid is not None]
                 if not cands:
@@ -1347,7 +1508,7 @@ class ReactorRecorder:
                     a = {"n": "CallRO", "o": o, "m": m}
                     call_mutator(O[o], f, m)
                 elif how == "set":
-                    p = rng.choice(RPAR)
+                    p = rng.choice([q for q in RPAR if q in RBIND[f]])
                     a = {"n": "AssignRO", "o": o, "p": p, "v": 0}
                     setattr(O[o].p, RBIND[f][p], self.value(rng, p, f))
                 elif rng.random() < 0.5:
@@ -1397,7 +1558,7 @@ class ReactorRecorder:
     def record(self, tid, nev, rng, directed=False):
         w = self.new_world()
         p0 = self.project(w)
-        init = {k: p0[k] for k in ("parent", "cls", "val", "rest", "cass", "grid")}
+        init = {k: p0[k] for k in ("parent", "cls", "val", "rest", "cass", "grid", "link")}
         ev = []
         tries = 0
         # every fourth history starts with: write the reactor, make objects, load the snapshot, make more objects
@@ -1872,6 +2033,56 @@ def _mutants():
             return r
         return swap(database.Database, "load", load)
     out.append(("Database.load sets the serial counter to the database maximum", m_seed5))
+
+    # ---- second seeding round ----
+    def m_r2_unset():  # __setstate__ skips fields for which nothing was stored: an unset parameter is never put back
+        def ss(self, state):
+            for key, val in zip(self._allFields, state):
+                if val is pdm.NoDefault:
+                    continue
+                setattr(self, key, val)
+        return swap(PC, "__setstate__", ss)
+    out.append(("__setstate__ skips NoDefault (unset never restored)", m_r2_unset))
+
+    def m_r2_hash():  # Parameter.__hash__ on the name only: a same-named definition of another class matches the keep-set
+        return swap(P, "__hash__", lambda self: hash(self.name))
+    out.append(("Parameter.__hash__ hashes the name only", m_r2_hash))
+
+    def m_r2_tuple():  # deepcopy fast path that does not copy tuples (_DimensionLink is a tuple)
+        def dc(self, memo):
+            immutable = (int, float, str, bytes, tuple, type(None))
+            state = [v if isinstance(v, immutable) else copy.deepcopy(v, memo) for v in self.__getstate__()]
+            memo[id(self)] = new = self.__class__(_state=state)
+            return new
+        return swap(PC, "__deepcopy__", dc)
+    out.append(("__deepcopy__ does not copy tuples (dimension links shared)", m_r2_tuple))
+
+    def m_r2_pitch():  # HexGrid.pitch memoised; changePitch invalidates, restoreBackup does not
+        from math import sqrt
+
+        from armi.reactor.grids import hexagonal
+
+        H = hexagonal.HexGrid
+        oldp, oldc = H.__dict__["pitch"], H.__dict__["changePitch"]
+
+        def pitch(self):
+            v = self.__dict__.get("_pitch")
+            if v is None:
+                v = sqrt(self._unitSteps[0][0] ** 2 + self._unitSteps[1][0] ** 2)
+                self._pitch = v
+            return v
+
+        def changePitch(self, newPitchCm):
+            oldc(self, newPitchCm)
+            self._pitch = None
+        H.pitch = property(pitch)
+        H.changePitch = changePitch
+
+        def undo():
+            H.pitch = oldp
+            H.changePitch = oldc
+        return undo
+    out.append(("HexGrid.pitch memoised, not invalidated by restoreBackup", m_r2_pitch))
     return out
 
 
@@ -1903,10 +2114,11 @@ def selftest():
 
     def keys_of(stop_at_new=None):
         rep = Rep()
-        adapters = {p: MiniAdapter(p) for p in PROFILES}
-        for focus in ("read-only", "copy", "grid", "params"):
+        adapters = {p: MiniAdapter(p) for p in ALL_PROFILES}
+        for focus in EMIT_QUICK:
             g = graphs[focus]
-            for pi, prof in enumerate(PROFILES):
+            profs = profiles_of(EMIT_QUICK[focus])
+            for pi, prof in enumerate(profs):
                 ad = adapters[prof]
 
                 def on_div(d, ad=ad, g=g):
@@ -1914,7 +2126,7 @@ def selftest():
                     k = report_div(rep, dict(d), ad, "replay")
                     return stop_at_new is not None and k not in stop_at_new
                 st, divs = cover(g, ad, [i for i in range(len(g.edges))
-                                         if EMIT_QUICK[focus][1] or i % len(PROFILES) == pi], on_div=on_div)
+                                         if EMIT_QUICK[focus][1] or i % len(profs) == pi], on_div=on_div)
                 if stop_at_new is not None and any(k not in stop_at_new for k in rep.keys):
                     return rep.keys, "edge replay (%s, %s)" % (focus, prof)
         if stop_at_new is not None:
@@ -1934,7 +2146,10 @@ def selftest():
         for v in out["violations"]:
             base.setdefault(v["key"], v["what"])
     print("baseline (unchanged code) reports: %s" % sorted(base))
+    only = os.environ.get("C16_MUTANTS")
     for name, install in _mutants():
+        if only and only not in name:
+            continue
         undo = install()
         try:
             try:
